@@ -72,7 +72,7 @@ fn check_message(c: u8, n: u8, v: u16, mon: &mut Cc14Mon, rng: &mut Rng, hist: &
     });
     rep.evaluations += 1;
     let Some((m, acc, rb, sb, same)) = r else {
-        rep.violation(
+        crate::viol!(rep, 
             "C07:panic:construct-or-encode",
             format!("ControlChange14BitMessage::new({}, {}, {}) or its encoding panicked", c, n, v),
             rp,
@@ -80,7 +80,7 @@ fn check_message(c: u8, n: u8, v: u16, mon: &mut Cc14Mon, rng: &mut Rng, hist: &
         return;
     };
     if (acc.0.get(), acc.1.get(), acc.2.get(), acc.3.get()) != (c, n, n + 32, v) {
-        rep.violation(
+        crate::viol!(rep, 
             "C07:accessors",
             format!("message ({},{},{}) reports back {:?}", c, n, v, acc),
             rp.clone(),
@@ -89,7 +89,7 @@ fn check_message(c: u8, n: u8, v: u16, mon: &mut Cc14Mon, rng: &mut Rng, hist: &
     let exp = [(0xB0 | c, n, (v >> 7) as u8), (0xB0 | c, n + 32, (v & 127) as u8)];
     let nb = |b: (u8, U7, U7)| (b.0, b.1.get(), b.2.get());
     if [nb(rb[0]), nb(rb[1])] != exp || [nb(sb[0]), nb(sb[1])] != exp || !same {
-        rep.violation(
+        crate::viol!(rep, 
             "C07:encoding",
             format!(
                 "message ({},{},{}) encodes to raw {:?} / structured {:?} (array conversion equal: {}), expected {:?}",
@@ -134,7 +134,7 @@ fn check_message(c: u8, n: u8, v: u16, mon: &mut Cc14Mon, rng: &mut Rng, hist: &
         let p2 = mon.apply(&e2, rep, &|| h.iter().map(|e| e.render()).collect());
         rep.count("messages_fed_twice_in_a_row", 1);
         if p1.is_some() || p2 != Some(want) {
-            rep.violation(
+            crate::viol!(rep, 
                 "C07:scanner-does-not-invert-encoder:repeated-message",
                 format!("feeding the encoding of ({},{},{}) a second time returned {:?} then {:?}; expected None then {:?}", c, n, v, p1, p2, want),
                 history_json("cc14", None, &|| h.iter().map(|e| e.render()).collect(), json!(format!("{:?}", want)), json!(format!("{:?} / {:?}", p1, p2))),
@@ -143,7 +143,7 @@ fn check_message(c: u8, n: u8, v: u16, mon: &mut Cc14Mon, rng: &mut Rng, hist: &
     }
     if o1.is_some() || o2 != Some(want) {
         let h: &Vec<Ev> = hist;
-        rep.violation(
+        crate::viol!(rep, 
             "C07:scanner-does-not-invert-encoder",
             format!(
                 "feeding the encoding of ({},{},{}) after prior traffic returned {:?} then {:?}; expected None then {:?}",
@@ -202,7 +202,7 @@ pub fn run_c07(cfg: &Cfg, rep: &mut Report) {
                 cases += 1;
                 let want = Some(C14M { ch: c, msb_cn: n, value: v });
                 if o1.is_some() || o2 != want {
-                    rep.violation(
+                    crate::viol!(rep, 
                         "C07:scanner-does-not-invert-encoder:long-prior-history",
                         format!("after {} , {} and 66000 x {}, feeding the encoding of ({},{},{}) returned {:?} then {:?}; expected None then {:?}", e1.render(), e2.render(), filler.render(), c, n, v, o1, o2, want),
                         json!({"kind":"history-compressed","scanner":"cc14","prefix":[e1.render(), e2.render()],"repeat":{"event":filler.render(),"times":66000},"then":[e1.render(), e2.render()]}),
@@ -223,7 +223,7 @@ pub fn run_c07(cfg: &Cfg, rep: &mut Report) {
             match (r.is_ok(), n < 32) {
                 (true, true) => {}
                 (false, false) => note_expected_panic("ControlChange14BitMessage::new"),
-                (ok, _) => rep.violation(
+                (ok, _) => crate::viol!(rep, 
                     "C07:constructor-panic-condition",
                     format!(
                         "ControlChange14BitMessage::new(_, {}, _) {} (must panic exactly for controller numbers >= 32)",
@@ -274,7 +274,7 @@ pub fn run_c07(cfg: &Cfg, rep: &mut Report) {
                             let k = outs.len();
                             let want = Some(C14M { ch: c, msb_cn: n, value: v });
                             if ok.is_none() || k < 2 || outs[k - 2].is_some() || outs[k - 1] != want {
-                                rep.violation(
+                                crate::viol!(rep, 
                                     "C07:scanner-does-not-invert-encoder:prior-state",
                                     format!("history {:?} produced {:?}; the last two must be None, {:?}", evs.iter().map(|e| e.render()).collect::<Vec<_>>(), outs, want),
                                     history_json("cc14", None, &|| evs.iter().map(|e| e.render()).collect(), json!(format!("{:?}", want)), json!(format!("{:?}", outs))),
